@@ -172,6 +172,17 @@ structure InputOutcome (c c' : Cfg) (scr : Nat) (pushed : List Instr) (renders :
     if s = scr then { c.A.scr s with err := if c.retAction = UAction.error then (c.A.scr s).err + 1 else 0 }
     else c.A.scr s
 
+/-- instructions that run as soon as they are pushed (callback invocations, the draw step, the
+refresh step): in reachable configurations they only ever occur at the head of the code -/
+def Instr.immediate : Instr → Bool
+  | .callScr .. | .drawScreen _ | .afterSetup2 _ => true
+  | _ => false
+
+/-- 1 if a `closed` callback is the next instruction (popped, not yet notified), else 0 -/
+def pendClosed : List Instr → Nat
+  | .callScr _ .closed _ _ :: _ => 1
+  | _ => 0
+
 /-- the exception kinds a catcher instruction handles -/
 def Instr.catches : Kind → Instr → Bool
   | .err, .catchHandler | .err, .catchPS | .err, .catchDraw | .err, .catchPI _ | .exit, .catchExit => true
